@@ -183,19 +183,25 @@ theorem merge_homogeneous_spec {w n M : Nat} {r : List Nat} (h : mergeHomogeneou
 
 example : mergeHomogeneous 2 5 2 = some [6, 4] := by rfl
 
-/-- **merge_to_number_spec** (all three paths, the heap path with its lazy deletion included): on positive chunks
-    whatever `merge_to_number` returns has the same total and only positive chunks; it has exactly `max_number`
-    chunks when there were more, and is the input itself otherwise.  (Invariant of the `while nmerges > 0` loop:
-    every heap entry `(w, i, j)` has `i < j`; a merge keeps the sum and removes exactly one live chunk.
-    Raising - `heappop` from an empty heap, `chunks[j]` past the end, the `assert` - is modelled as an error, so is
-    running out of the model's fuel; that neither happens is validated by the function-level diff.) -/
-theorem merge_to_number_spec {cs r : List Nat} {M : Nat} (h : mergeToNumberFull cs M = .ok r) (hpos : ∀ c ∈ cs, 0 < c) :
-    sum r = sum cs ∧ (∀ x ∈ r, 0 < x) ∧ (M < cs.length → r.length = M) ∧ (cs.length ≤ M → r = cs) :=
-  mergeToNumberFull_spec h hpos
+/-- **merge_to_number_spec** (all three paths, the heap path with its lazy deletion included): whatever
+    `merge_to_number` returns has the same total; it has exactly `max_number` chunks when there were more, and is the
+    input itself otherwise; positive chunks stay positive.  Zero-length chunks in the input are fine (since
+    `fix: merge_to_number … zero-length chunks`: a merged-away chunk is marked `None`, no longer `0`).
+    (Invariant of the `while nmerges > 0` loop: every heap entry `(w, i, j)` has `i < j`; a merge keeps the sum of the
+    live chunks and removes exactly one of them.  Raising - `heappop` from an empty heap, `chunks[j]` past the end,
+    `None + int` - is modelled as an error, so is running out of the model's fuel; that neither happens is
+    validated by the function-level diff.) -/
+theorem merge_to_number_spec {cs r : List Nat} {M : Nat} (h : mergeToNumberFull cs M = .ok r) :
+    sum r = sum cs ∧ ((∀ c ∈ cs, 0 < c) → ∀ x ∈ r, 0 < x) ∧ (M < cs.length → r.length = M) ∧ (cs.length ≤ M → r = cs) :=
+  mergeToNumberFull_spec h
 
 example : mergeToNumberFull [5, 1, 1, 7, 2] 3 = .ok [7, 7, 2] := by rfl
 example : mergeToNumberFull [1, 2, 3, 4, 5, 6] 2 = .ok [15, 6] := by rfl
 example : mergeToNumberFull [3, 3, 3, 3] 0 = .error .raised := by rfl
+/-- witnesses of the repaired defect (zero-length chunks of the target were taken for deleted entries: AssertionError /
+    IndexError before the fix) -/
+example : mergeToNumberFull [3, 0, 0, 2, 0, 1] 3 = .ok [3, 2, 1] := by rfl
+example : mergeToNumberFull [0, 0, 0] 2 = .ok [0, 0] := by rfl
 
 /-! ## Part 2b: the stage choice of `plan_rechunk` (`find_split_rechunk`, `find_merge_rechunk`, the loop)
 
